@@ -205,7 +205,9 @@ BackupRetMonitors(r, c) ==
         \* an unreadable head in the archive is legitimately grumbled about when stitching the basis
         \* (so is what a killed delete left of a version: missing hunks are reported when it is stitched)
         cleanStart == g.torn = {} /\ \A x \in Bands(c.fs0) : HeadOK(c.fs0, x)
-        faultfree == g.mode = "clean" /\ ~c.injected /\ ~g.damaged
+        \* ("big" scenarios: contents above 64 bytes are logged as length + digest, so only what does
+        \* not need the bytes of a block is judged there)
+        faultfree == g.mode \in {"clean", "big"} /\ ~c.injected /\ ~g.damaged
     IN
        \* after a simulated kill the process keeps running with a dead storage; what it does
        \* then (including panicking) is not behaviour of the real system
@@ -213,7 +215,7 @@ BackupRetMonitors(r, c) ==
   \cup If(r.timeout, {<<"Hang", "backup">>})
   \cup If(faultfree /\ (~success \/ (cleanStart /\ r.mon_errors # 0)),
           {<<"BackupNotClean", <<r.res, r.errors, r.mon_list>> >>})
-  \cup If(~r.crashed /\ ~good /\ ~g.damaged /\ (silent \/ (faultfree /\ success)),
+  \cup If(~r.crashed /\ ~good /\ ~g.damaged /\ g.mode # "big" /\ (silent \/ (faultfree /\ success)),
           {<<"CompleteSuccessWrong", <<b, IF b # -1 /\ HeadOK(fs, b) THEN TreeDiff(c.want, RestoreOf(fs, b)) ELSE {}>> >>})
   \* C10: after a stored file was deleted or emptied a new backup completes and restores exactly
   \cup If(g.damaged /\ g.dmghow \in {"delete", "trunc0"} /\ ~c.injected /\ ~r.panic /\ (r.res # "ok" \/ r.errors # 0 \/ ~good),
@@ -328,6 +330,8 @@ RestoreMonitors(r) ==
              (r.res # "ok" \/ r.picked # b \/
               (r.mon_errors # 0 /\ \A x \in Bands(fs) : x <= b => fs.bands[x].head \in {"ok", "absent"})),
           {<<"RestoreFailed", <<b, r.res, r.mon_errors>> >>})
+  \cup If(g.mode = "big" /\ judged /\ Complete(fs, b) /\ b \in (DOMAIN g.snap) \ g.partial /\ (r.res # "ok" \/ r.mon_errors # 0),
+          {<<"RestoreFailed", <<b, r.res, r.mon_errors>> >>})
   \cup If(judged /\ r.res = "ok" /\ AllReadable(fs, es) /\
              TreeSel(T, S, {}) # (IF plain THEN RestoreOf(fs, b) ELSE IF r.excl = <<>> THEN TreeOfEntries(fs, es) ELSE NoRoot(TreeOfEntries(fs, es))),
           {<<"RestoreDiffersFromListing", <<b, TreeDiff(IF plain THEN RestoreOf(fs, b) ELSE IF r.excl = <<>> THEN TreeOfEntries(fs, es) ELSE NoRoot(TreeOfEntries(fs, es)), TreeSel(T, S, {}))>> >>})
@@ -374,7 +378,7 @@ ValidateMonitors(r) ==
   \cup If(r.timeout, {<<"Hang", "validate">>})
   \* healthy = produced by fault-free operations, interrupted backups counted once their
   \* header exists (the statement's wording); a head-less leftover is outside the clause
-  \cup If(~g.damaged /\ g.mode = "clean" /\ loud /\ g.torn = {} /\ (\A b \in Bands(fs) : HeadOK(fs, b)),
+  \cup If(~g.damaged /\ g.mode \in {"clean", "big"} /\ loud /\ g.torn = {} /\ (\A b \in Bands(fs) : HeadOK(fs, b)),
           {<<"ValidateFalseAlarm", <<r.res, r.mon_list>> >>})
   \* Damage must be reported when some version no longer restores exactly -- unless what is left is
   \* itself a state fault-free operation can produce (e.g. the last hunk of an interrupted version
